@@ -29,6 +29,8 @@ def main():
         r0 = sh("cd %s && %s /venv/bin/python %s" % (tmp, env, demo))
         res["demo_pristine_exit"] = r0.returncode
         a = sh("git -C %s apply %s" % (repo, os.path.join(d, "patch.diff")))
+        if a.returncode != 0:
+            a = sh("git -C %s apply --3way %s" % (repo, os.path.join(d, "patch.diff")))
         res["patch_applies"] = a.returncode == 0
         if a.returncode != 0:
             res["apply_output"] = a.stdout[-500:]
